@@ -197,8 +197,9 @@ class Session:
             self.log.append({"stage": "S6", "what": "initial_population", "op": op, "impl": py["x0"], "model": tofloat(ln["x0"])})
         return py, ln
 
-    def run(self, params, solver, rtol=None, atol=None, tol=RTOL, stages=("S7", "S8"), jit=False):
+    def run(self, params, solver, rtol=None, atol=None, tol=RTOL, stages=("S7", "S8"), jit=False, rebuild=None):
         op = {"op": "run", "params": [[k, v] for k, v in params.items()], "solver": solver, "jit": jit}
+        if rebuild is not None: op["rebuild"] = bool(rebuild)
         if rtol is not None: op["rtol"] = rtol
         if atol is not None: op["atol"] = atol
         py = self.I.apply(op)
